@@ -155,6 +155,7 @@ struct Res {
     ref_why: String,
     vio: Option<(String, String)>,
     calls: u64,
+    mon: Vec<crate::vmc::Vio>,
 }
 
 /// what the reference knows about one output
@@ -353,7 +354,7 @@ fn run_case(case: &Case) -> Res {
         let out_value = outputs[vout].value;
         let mut sv = SetupV::basic(false, !matches!(fk, FundK::Inbound));
         sv.value = match fk {
-            FundK::ValueOff(d) => (out_value as i64 + d) as u64,
+            FundK::ValueOff(d) => (out_value as i128 + *d as i128).clamp(0, u64::MAX as i128) as u64,
             _ => out_value,
         };
         sv.push_msat = match fk {
@@ -457,6 +458,7 @@ fn run_case(case: &Case) -> Res {
         let (tx2, sw, po, op) = (tx.clone(), segwit.clone(), prev_outs.clone(), opaths.clone());
         let ucks: Vec<Option<(lightning_signer::bitcoin::secp256k1::SecretKey, Vec<Vec<u8>>)>> = vec![None; inputs.len()];
         let n2 = node.clone();
+        let before = if crate::monitors::grid_monitors() { Some(w.snapshot()) } else { None };
         if case.entry == 0 {
             let o = call(move || match n2.check_onchain_tx(&tx2, &sw, &po, &ucks, &op) {
                 Ok(()) => Ok(None),
@@ -465,6 +467,16 @@ fn run_case(case: &Case) -> Res {
                     _ => Err(format!("{:?}", ve.kind).chars().take(40).collect::<String>()),
                 },
             });
+            // a report of unknown destinations is a refusal as far as state is concerned
+            if before.is_some() {
+                let as_refusal: Outcome<()> = match &o {
+                    Outcome::Ok(None) => Outcome::Ok(()),
+                    Outcome::Ok(Some(_)) => Outcome::Err("UnknownDestinations/".into()),
+                    Outcome::Err(e) => Outcome::Err(e.clone()),
+                    Outcome::Panic(p) => Outcome::Panic(p.clone()),
+                };
+                crate::monitors::around(&w, &before, &as_refusal, "check_onchain_tx", &mut r.mon);
+            }
             match o {
                 Outcome::Ok(None) => {
                     r.accepted = true;
@@ -667,6 +679,35 @@ fn alphabet(c: &Case) -> Vec<Dev> {
     v.push(Dev::Repeat);
     v.push(Dev::RepeatLater);
     v
+}
+
+/// the quick-tier cases with the C10 / C11 monitors around every request
+pub fn monitored(wall_s: f64) -> (u64, Vec<(crate::vmc::Vio, Value)>) {
+    let t0 = std::time::Instant::now();
+    let mut cases = vec![];
+    for b in bases().into_iter().filter(|b| b.entry == 0) {
+        cases.push(b.clone());
+        for d in alphabet(&b) {
+            let mut c = b.clone();
+            c.devs = vec![d];
+            cases.push(c);
+        }
+    }
+    let mut out = vec![];
+    let mut n = 0u64;
+    for chunk in cases.chunks(2048) {
+        if t0.elapsed().as_secs_f64() > wall_s {
+            break;
+        }
+        let rs = par_map(chunk, nthreads(), |c| run_case(c));
+        for (c, r) in chunk.iter().zip(rs.into_iter()) {
+            n += r.calls;
+            for v in r.mon {
+                out.push((v, json!({"engine": "c08", "case": c})));
+            }
+        }
+    }
+    (n, out)
 }
 
 pub fn main(tier: Tier) -> i32 {
